@@ -44,7 +44,7 @@ def main(argv):
     phases = {}
     _t0 = _t.time()
     # 0 gate -----------------------------------------------------------------
-    off = vlib.gate()
+    off = vlib.gate(prop=prop)
     if off:
         ctx.broken.append({"kind": "gate", "name": "forbidden-token", "detail": off[:20]})
 
